@@ -919,7 +919,7 @@ namespace plan
       {
         std::vector<int> cands;
         for (size_t si = 0; si < m.insts.size(); ++si)
-          if (m.classes[m.preds[p].cls].is_sv ? m.insts[si].cls == m.preds[p].cls : m.is_subclass(m.insts[si].cls, m.preds[p].cls))
+          if (m.is_subclass(m.insts[si].cls, m.preds[p].cls))
             cands.push_back(static_cast<int>(si));
         // the scope is an instance or, one time in three when there is one, an object variable over the class: the atom's
         // tau is then decided by the search (unification must respect it; placement/forbid resolvers of state variables)
